@@ -47,6 +47,8 @@ func init() {
 }
 
 func runC26(c *core.Ctx) {
+	c.Rule("LOOPCLOSURE", "no function literal that outlives its iteration uses a shared loop variable")
+	checkLoopClosures(c, "LOOPCLOSURE", []string{"cmd", "plugins", "datasources", "execution", "logical", "physical", "optimizer", "outputs", "functions", "aggregates", "table_valued_functions", "config", "helpers", "parser", "octosql", "telemetry"})
 	c.Rule("CODEC", "value/type codecs are arm-by-arm inverses")
 	c.Rule("MSG", "message codecs carry every native field there and back")
 	c.Rule("REPOP", "implementations restored only from a fully matching descriptor; otherwise not ok")
